@@ -37,7 +37,7 @@ def _all(root, tag):
   return [e for e in root.find('worldbody').iter(tag)]
 
 
-def inject(xml, feature, pick):
+def inject(xml, feature, pick, cyl_mask=(1, 1)):
   """Returns (xml', element index, number of eligible elements) or None if not eligible."""
   root = ET.fromstring(xml)
   opt = root.find('option')
@@ -136,7 +136,9 @@ def inject(xml, feature, pick):
     g.set(feature, '2')
   elif feature == 'cylinder':
     b, idx, n = choose(bodies)
-    ET.SubElement(b, 'geom', {'name': 'inj_cyl', 'type': 'cylinder', 'size': '0.05 0.1', 'pos': '0 0 0.05'})
+    # a cylinder collides with the plane (contype 1, conaffinity 1) whenever either of its two masks is set
+    ET.SubElement(b, 'geom', {'name': 'inj_cyl', 'type': 'cylinder', 'size': '0.05 0.1', 'pos': '0 0 0.05',
+                              'contype': str(cyl_mask[0]), 'conaffinity': str(cyl_mask[1])})
   elif feature == 'anchor_mismatch':
     cand = [b for b in bodies if len([j for j in list(b) if j.tag == 'joint']) >= 2]
     b, idx, n = choose(cand)
@@ -201,9 +203,15 @@ def check(case, ctx=None):
   m = phys.mods()
   jax, jp, mujoco = m['jax'], m['jp'], m['mujoco']
   spec, feature = case['spec'], case['feature']
+  if feature == 'cylinder' and 'cyl_mask' not in case:
+    # every way a cylinder can collide with the plane (contype 1, conaffinity 1): both masks, contype only, conaffinity only
+    out = None
+    for mask in ([1, 1], [1, 0], [0, 1]):
+      out = check(dict(case, cyl_mask=mask), ctx)
+    return out
   xml = modelgen.to_xml(spec)
   if feature != 'clean':
-    inj = inject(xml, feature, case['pick'])
+    inj = inject(xml, feature, case['pick'], tuple(case.get('cyl_mask', (1, 1))))
     if inj is None:
       if ctx is not None:
         ctx.count('not_eligible')
@@ -222,10 +230,12 @@ def check(case, ctx=None):
         r = init_raises(sys, p, eager)
         for how, exc in r.items():
           if exc is None:
+            extra = f', cylinder contype/conaffinity {case.get("cyl_mask")}' if feature == 'cylinder' else ''
             raise Violation('accepted', f'{p}.init ({how}) accepted a model with unsupported feature {feature} '
-                            f'(eligible element {idx} of {n_el})', labels={'check': 'accepted', 'feature': feature, 'pipeline': p, 'how': how})
+                            f'(eligible element {idx} of {n_el}{extra})', labels={'check': 'accepted', 'feature': feature, 'pipeline': p, 'how': how})
     return dict(fp=fingerprint([feature, idx, spec]), nontrivial=bool(idx > 0 or n_el == 1 and len(spec['bodies']) >= 2),
-                labels=[f'feature:{feature}', f'rejected_at:{stage.split(":")[0]}'] + (['eager_checked'] if eager else []),
+                labels=[f'feature:{feature}', f'rejected_at:{stage.split(":")[0]}'] + (['eager_checked'] if eager else []) +
+                ([f'cyl_mask:{case.get("cyl_mask")}'] if feature == 'cylinder' else []),
                 sample={'feature': feature, 'element': idx, 'eligible': n_el, 'rejected_at': stage,
                         'model': phys.model_summary(spec)})
   # clean model: accepted and consistent
@@ -304,7 +314,7 @@ def check_history(case, ctx=None):
     if init_raises(sys, p_, False)['traced'] is not None:
       raise Violation('rejected_clean', f'{p_}.init raised on a supported model', labels={'check': 'rejected_clean', 'pipeline': p_})
   feature = case['feature']
-  inj = inject(xml, feature, case['pick'])
+  inj = inject(xml, feature, case['pick'], tuple(case.get('cyl_mask', (1, 1))))
   if inj is not None:
     xml2 = inj[0]
     phys.load_mj(xml2)
